@@ -1,4 +1,5 @@
 import Netpoll.DialLemmas
+import Netpoll.DialSpec
 /-!
 C14 – a dial ends in a usable connection or a clean error within its timeout.
 
@@ -200,5 +201,45 @@ theorem C14_terminates_retry (s : St) (t : TcpScript) : (dialTCP s t).2.2 ≤ 2 
 
 example : (dialTCP {} { att := fun _ => { fd := 4, e0 := EADDRNOTAVAIL } }).2 =
     (.ret false (some (.sysConnect EADDRNOTAVAIL)), 2) := by decide
+
+/-- **The oracle is implied by the theorems**: every returned model dial passes `specOk`, the
+executable form of C14 that `npdriver dialspec` applies to the implementation's observations. -/
+theorem C14_model_meets_oracle (as : List AddrScript) (hfd : FdsOk as) (o : Obs)
+    (h : obsOf fixedCfg (dialConnection as).1 (dialConnection as).2 = some o) : specOk o = true := by
+  have hp := dialAddrs_spec held_init rfl none hfd
+  unfold dialConnection at h
+  generalize dialAddrs {} none as = r at hp h
+  obtain ⟨s, res⟩ := r
+  simp only at h hp
+  cases res with
+  | blocked => simp [obsOf] at h
+  | ret c e =>
+    simp only [obsOf, Option.some.injEq] at h
+    subst h
+    cases c with
+    | true =>
+      cases e with
+      | some e => exact hp.elim
+      | none =>
+        obtain ⟨⟨h1, h2, h3, h4, h5, h6, h7, h8, h9⟩, _⟩ := hp
+        simp only [if_true] at h1 h4
+        simp [specOk, isDeadline, h1, h4, h8, h9]
+    | false =>
+      cases e with
+      | none => exact hp.elim
+      | some e =>
+        obtain ⟨⟨h1, h2, h3, h4, h5, h6, h7, h8, h9⟩, _⟩ := hp
+        simp only [Bool.false_eq_true, if_false, Nat.add_zero] at h1 h4
+        have ht : (!isDeadline (some e) || e.timeout fixedCfg) = true := by
+          cases e with
+          | ctx k => cases k <;> decide
+          | _ => simp [isDeadline]
+        simp [specOk, h1, h4, h8, h9, ht]
+
+example : (obsOf fixedCfg (dialConnection [exRefused, exRetryThenOk]).1 (dialConnection [exRefused, exRetryThenOk]).2).map specOk
+    = some true := by decide
+
+/-- the oracle rejects the D13 behaviour -/
+example : (obsOf d13Cfg (dialConnection [exTimeout]).1 (dialConnection [exTimeout]).2).map specOk = some false := by decide
 
 end Netpoll.Props.C14
